@@ -471,6 +471,16 @@ fn cache_consistency(world: &World, ctx: &InsertionContext, report: &mut Report)
     if passes > 2 {
         report.add_count("rebuilds_needing_more_than_one_pass", 1);
     }
+    if std::env::var("VERIF_DBG").is_ok() {
+        eprintln!("DBG tours {before_tours}");
+        for (vid, state) in &before {
+            eprintln!("DBG cached {vid}: {state:?}");
+        }
+        for rc in copy.solution.routes.iter() {
+            eprintln!("DBG recomputed {:?}: {:?}", rc.route().actor.vehicle.dimens.get_vehicle_id(), rc.state().verif_digest().0);
+        }
+        eprintln!("DBG solution cached {sol_before:?}\nDBG solution recomputed {:?}", copy.solution.state.verif_digest(false).0);
+    }
     let after_tours = canonical(&copy);
     if before_tours != after_tours {
         errs.push(("recompute-changes-tours".to_string(), format!("{before_tours}  =>  {after_tours}")));
@@ -502,37 +512,68 @@ fn cache_consistency(world: &World, ctx: &InsertionContext, report: &mut Report)
 /// (Solution-level aggregates are rebuilt by the library when a heuristic finishes; they are judged at every handover.)
 fn route_caches_after_insertion(goal: &GoalContext, ctx: &InsertionContext) -> Vec<(String, String)> {
     let mut errs = vec![];
-    for rc in ctx.solution.routes.iter() {
-        let digest = |rc: &RouteContext| -> Vec<String> {
-            let (mut d, _) = rc.state().verif_digest();
-            d.extend(rc.route().tour.all_activities().map(|a| format!("sched:{}-{}", a.schedule.arrival, a.schedule.departure)));
-            d
-        };
-        let cached = digest(rc);
-        let mut copy = rc.deep_copy();
-        copy.verif_reset_state();
-        let mut last = vec![];
-        for _ in 0..3 {
-            if let Err(p) = catch(|| goal.accept_route_state(&mut copy)) {
-                errs.push((format!("insertion:recompute-panic@{}", panic_site(&p)), p));
-                break;
+    let digest = |rc: &RouteContext| -> Vec<String> {
+        let (mut d, _) = rc.state().verif_digest();
+        // an absent entry and an empty collection say the same thing (e.g. group tags of a tour without grouped jobs)
+        d.retain(|e| !e.ends_with("=[]"));
+        d.extend(rc.route().tour.all_activities().map(|a| format!("sched:{}-{}", a.schedule.arrival, a.schedule.departure)));
+        d
+    };
+    let key_of = |rc: &RouteContext| Arc::as_ptr(&rc.route().actor) as usize;
+    let cached: HashMap<usize, Vec<String>> = ctx.solution.routes.iter().map(|rc| (key_of(rc), digest(rc))).collect();
+    // some per-tour entries (group tags, ...) are maintained by the solution-level pass: the whole context is rebuilt; if the
+    // rebuild itself edits tours (a trivial reload marker is taken out, ...) the two sides are not comparable and nothing is judged
+    let mut copy = ctx.deep_copy();
+    let tours_before = canonical(&copy);
+    for rc in copy.solution.routes.iter_mut() {
+        rc.verif_reset_state();
+    }
+    copy.solution.state.verif_strip_features();
+    let mut last = String::new();
+    for _ in 0..3 {
+        let r = catch(|| {
+            for rc in copy.solution.routes.iter_mut() {
+                goal.accept_route_state(rc);
             }
-            let now = digest(&copy);
-            if now == last {
-                break;
-            }
-            last = now;
+            goal.accept_solution_state(&mut copy.solution);
+        });
+        if let Err(p) = r {
+            return vec![(format!("insertion:recompute-panic@{}", panic_site(&p)), p)];
         }
-        if !last.is_empty() && last != cached {
-            let diff: Vec<String> = cached.iter().zip(last.iter()).filter(|(a, b)| a != b).map(|(a, b)| format!("cached {a} vs recomputed {b}")).take(3).collect();
+        let now: String = copy.solution.routes.iter().map(|rc| format!("{:?}", digest(rc))).collect();
+        if now == last {
+            break;
+        }
+        last = now;
+    }
+    if canonical(&copy) != tours_before {
+        return vec![("-not-comparable".into(), String::new())];
+    }
+    // infeasible-space search relaxes constraints on purpose: a tour which holds jobs of two compatibility classes has no
+    // defined compatibility value
+    {
+        use vrp_core::construction::features::JobCompatibilityDimension;
+        let mixed = ctx.solution.routes.iter().any(|rc| {
+            let tags: HashSet<&String> = rc.route().tour.jobs().filter_map(|j| j.dimens().get_job_compatibility()).collect();
+            tags.len() > 1
+        });
+        if mixed {
+            return vec![("-not-comparable".into(), String::new())];
+        }
+    }
+    for rc in copy.solution.routes.iter() {
+        let Some(c) = cached.get(&key_of(rc)) else { continue };
+        let r = digest(rc);
+        if &r != c {
+            let diff: Vec<String> = c.iter().zip(r.iter()).filter(|(a, b)| a != b).map(|(a, b)| format!("cached {a} vs recomputed {b}")).take(3).collect();
             let vid = rc.route().actor.vehicle.dimens.get_vehicle_id().cloned().unwrap_or_default();
-            errs.push(("insertion:route-cache-differs".to_string(), format!("route '{vid}' (entries {} vs {}): {diff:?}", cached.len(), last.len())));
+            errs.push(("insertion:route-cache-differs".to_string(), format!("route '{vid}' (entries {} vs {}): {diff:?}", c.len(), r.len())));
         }
     }
     errs
 }
 
-type InsertionSink = std::rc::Rc<std::cell::RefCell<(u64, Vec<(String, String)>)>>;
+type InsertionSink = std::rc::Rc<std::cell::RefCell<(u64, Vec<(String, String)>, u64)>>;
 
 fn observe_insertions(goal: Arc<GoalContext>) -> InsertionSink {
     let sink: InsertionSink = Default::default();
@@ -541,7 +582,9 @@ fn observe_insertions(goal: Arc<GoalContext>) -> InsertionSink {
         let errs = route_caches_after_insertion(goal.as_ref(), ctx);
         let mut b = s.borrow_mut();
         b.0 += 1;
-        if b.1.len() < 8 {
+        if errs.iter().any(|(k, _)| k == "-not-comparable") {
+            b.2 += 1;
+        } else if b.1.len() < 8 {
             b.1.extend(errs);
         }
     }));
@@ -564,7 +607,16 @@ fn slice(tier: Tier) -> Vec<(String, PProblem)> {
         };
         let candidates: Vec<PProblem> = problems.into_iter().filter(|p| p.jobs.len() >= 3).collect();
         let step = (candidates.len() / per.max(1)).max(1);
-        out.extend(candidates.into_iter().step_by(step).take(per).map(|p| (name.to_string(), p)));
+        let mut picked: Vec<PProblem> = candidates.iter().step_by(step).take(per).cloned().collect();
+        // shapes with per-tour caches of their own are always part of the slice: groups / compatibility / order / value,
+        // tour-shape objectives (balance, compact tour, fast service)
+        for p in &candidates {
+            let special = p.name.starts_with("attr/v") || name == "shape";
+            if special && !picked.iter().any(|q| q.name == p.name) {
+                picked.push(p.clone());
+            }
+        }
+        out.extend(picked.into_iter().map(|p| (name.to_string(), p)));
     }
     // locks matching several vehicles (core API)
     for order in ["any", "sequence", "strict"] {
@@ -630,8 +682,9 @@ fn explore(ctx: &RunCtx, world: &World, report: &mut Report) {
     let roots = world.roots();
     if let Some(sink) = root_sink {
         verif_observer::uninstall();
-        let (n, errs) = std::mem::take(&mut *sink.borrow_mut());
+        let (n, errs, skipped) = std::mem::take(&mut *sink.borrow_mut());
         report.add_count("insertions_observed", n);
+        report.add_count("insertions_not_comparable", skipped);
         for (key, what) in errs {
             report.violation(Violation::new(format!("{key}:{}", world.problem.name), what, json!({"family": world.family, "problem": world.problem.name, "root": "*", "history": []})));
         }
@@ -663,8 +716,9 @@ fn explore(ctx: &RunCtx, world: &World, report: &mut Report) {
                     h.push((oi, policy));
                     if let Some(sink) = sink {
                         verif_observer::uninstall();
-                        let (n, errs) = std::mem::take(&mut *sink.borrow_mut());
+                        let (n, errs, skipped) = std::mem::take(&mut *sink.borrow_mut());
                         report.add_count("insertions_observed", n);
+                        report.add_count("insertions_not_comparable", skipped);
                         let mut seen_keys = HashSet::new();
                         for (key, what) in errs {
                             if seen_keys.insert(key.clone()) {
